@@ -1,4 +1,5 @@
 import Tumfl.Props.C09
+import Tumfl.Props.C09Pos
 import Tumfl.Props.C19
 import Tumfl.Props.C05
 #print axioms Tumfl.Props.C09_lexer_total
@@ -10,6 +11,8 @@ import Tumfl.Props.C05
 #print axioms Tumfl.Props.C09_parser_terminates
 #print axioms Tumfl.Props.C09_fuel_irrelevant
 #print axioms Tumfl.Props.C09_parse_total_final
+#print axioms Tumfl.Props.C09_error_positions
+#print axioms Tumfl.Props.C09_lexer_error_position
 #print axioms Tumfl.Props.C09_no_index_error
 #print axioms Tumfl.Props.C05_rejects_cleanly
 #print axioms Tumfl.Props.C05_terminates
